@@ -1269,3 +1269,11 @@ func retainedIn(c *Ctx, f *ssa.Function, p *ssa.Parameter) string {
 	}
 	return ""
 }
+
+func (c *Ctx) groupType() *types.Named {
+	o := c.Jen.Pkg.Scope().Lookup("Group")
+	if o == nil {
+		broken("anchor lost: type jen.Group")
+	}
+	return o.Type().(*types.Named)
+}
